@@ -68,15 +68,18 @@ static double mean_edge(cell_ptr c){ double s=0; size_t k=0; for (const edge& e 
 
 // per-history time budget: a remeshing loop that does not return is reported, the remaining histories still run
 static void on_alarm(int){ const char m[] = " TIMEOUT\n"; ssize_t r = write(1, m, sizeof m - 1); (void)r; _exit(3); }
+// budget in seconds of CPU time of this process (robust against a loaded machine), with a wall-clock fallback of ten times that
+#include <sys/time.h>
+static void verif_budget(unsigned s){ struct itimerval it; it.it_interval.tv_sec = 0; it.it_interval.tv_usec = 0; it.it_value.tv_sec = s; it.it_value.tv_usec = 0; setitimer(ITIMER_PROF, &it, nullptr); alarm(10 * s); }
 
 int main(){
     std::string line;
-    std::signal(SIGALRM, on_alarm);
+    std::signal(SIGALRM, on_alarm); std::signal(SIGPROF, on_alarm);
     const char* tb = std::getenv("VERIF_CASE_SECONDS"); const unsigned budget = tb ? (unsigned)std::atoi(tb) : 20u;
     while (std::getline(std::cin, line)){
         if (line.empty()) continue;
         std::istringstream in(line);
-        std::cout.flush(); alarm(budget);
+        std::cout.flush(); verif_budget(budget);
         try {
             tissue_case t = read_tissue(in);
             expect(in, "R"); double lmin = rd(in), lmax = rd(in); int swap; in >> swap;
@@ -117,7 +120,7 @@ int main(){
             }
             std::cout << "\n";
         } catch (const std::exception& e){ std::cout << "FATAL " << e.what() << "\n"; }
-        alarm(0);
+        verif_budget(0);
     }
     return 0;
 }
